@@ -20,6 +20,7 @@ struct ScriptCfg {
     int maxSetup = 14;
     int maxEdits = 10;
     bool ragged = false;
+    bool nameVariants = false;    // parameter / group names that are case variants of other names, names and descriptions beyond what a file holds
     bool raggedSub = false;       // frames whose later sub-frame holds one channel fewer (accepted by frame(): only sub-frame 0 is checked)
 };
 
@@ -33,16 +34,18 @@ static rc::Gen<long long> dimEntry() {
                                         {3, g::elementOf(std::vector<long long>{4, 5, 8})}, {2, g::elementOf(std::vector<long long>{16, 32, 100})},
                                         {1, g::elementOf(std::vector<long long>{255, 128, 127})}});
 }
-static rc::Gen<Op> gParam(bool bad) {
-    auto grp = g::weightedOneOf<long long>({{2, g::just<long long>(0)}, {2, g::just<long long>(1)}, {1, g::just<long long>(2)}, {6, sized(3, 9)}});
-    auto name = bad ? g::weightedOneOf<long long>({{12, sized(0, 14)}, {1, g::just<long long>(-1)}}) : sized(0, 14);
+static rc::Gen<Op> gParam(bool bad, bool variants = false) {
+    auto grp = variants ? g::weightedOneOf<long long>({{2, g::just<long long>(0)}, {2, g::just<long long>(1)}, {1, g::just<long long>(2)}, {6, sized(3, 9)}, {1, g::map(sized(0, 9), [](long long v) { return v + 700000; })}})
+                        : g::weightedOneOf<long long>({{2, g::just<long long>(0)}, {2, g::just<long long>(1)}, {1, g::just<long long>(2)}, {6, sized(3, 9)}});
+    auto name = variants ? g::weightedOneOf<long long>({{12, sized(0, 14)}, {1, g::just<long long>(-1)}, {3, g::map(sized(0, 14), [](long long v) { return v + 700000; })}, {1, g::map(sized(0, 14), [](long long v) { return v + 800000; })}})
+              : bad ? g::weightedOneOf<long long>({{12, sized(0, 14)}, {1, g::just<long long>(-1)}}) : sized(0, 14);
     auto type = bad ? g::weightedOneOf<long long>({{12, uni(0, 2)}, {1, g::just<long long>(3)}}) : uni(0, 2);
     auto delta = bad ? g::weightedOneOf<long long>({{5, g::just<long long>(0)}, {2, g::elementOf(std::vector<long long>{-1, 1, 2, -2, 7})}, {1, g::just<long long>(-999999)}, {2, g::elementOf(std::vector<long long>{-888881, -888882, -888883})}})
                      : g::just<long long>(0);
     // nd == 0: delta is the element count
     auto nd = g::weightedOneOf<long long>({{4, g::just<long long>(0)}, {3, g::just<long long>(1)}, {3, g::just<long long>(2)}, {2, g::just<long long>(3)}, {2, uni(4, 7)}});
     return g::mapcat(nd, [=](long long ndv) {
-        std::vector<rc::Gen<long long>> a = {grp, name, type, g::weightedOneOf<long long>({{3, uni(0, 1)}, {1, uni(2, 3)}}), descLen(), seedv(),
+        std::vector<rc::Gen<long long>> a = {grp, name, type, g::weightedOneOf<long long>({{3, uni(0, 1)}, {1, uni(2, 3)}}), variants ? g::weightedOneOf<long long>({{15, descLen()}, {1, g::elementOf(std::vector<long long>{256, 300, 400})}}) : descLen(), seedv(),
                                              ndv == 0 ? g::weightedOneOf<long long>({{3, g::just<long long>(1)}, {3, sized(0, 12)}, {1, g::just<long long>(0)}}) : delta,
                                              g::just(ndv)};
         for (long long i = 0; i < ndv; ++i) a.push_back(dimEntry());
@@ -68,7 +71,7 @@ static rc::Gen<Op> gSetupOp(const ScriptCfg &c, bool rates = true) {
         {3, rates ? op("prate", {uni(0, kNumRates - 1)}) : op("obs", {})},
         {3, rates ? op("arate", {sized(0, 9)}) : op("obs", {})},
         {2, (rates && c.lateRates) ? op("pratex", {uni(0, kNumRates - 1), uni(-9, 9)}) : op("obs", {})},
-        {6, gParam(c.badParams)},
+        {6, gParam(c.badParams, c.nameVariants)},
         {1, op("lockg", {c.badParams ? sized(0, 12) : sized(0, 9)})},
         {1, op("unlockg", {c.badParams ? sized(0, 12) : sized(0, 9)})},
     });
@@ -102,7 +105,7 @@ static rc::Gen<Op> gEditOp(const ScriptCfg &c) {
     std::vector<std::pair<size_t, rc::Gen<Op>>> w = {
         {4, op("pcol", {sized(0, 30), uni(0, 2), colDev(c, false), seedv()})},
         {4, op("acol", {sized(0, 30), uni(0, 2), colDev(c, true), seedv()})},
-        {4, gParam(c.badParams)},
+        {4, gParam(c.badParams, c.nameVariants)},
         {1, op("lockg", {sized(0, 9)})},
         {1, op("unlockg", {sized(0, 9)})},
     };
@@ -164,8 +167,8 @@ static ScriptCfg cfgFor(const std::string &id, int tier) {
     else if (id == "C06") { c.fillAtEnd = false; c.callerReuse = false; c.deviations = true; }   // accepted deviating frames (e.g. points only) must be stored exactly as given too
     else if (id == "C07") { c.deviations = true; c.fillAtEnd = false; }
     else if (id == "C08") { c.callerReuse = true; c.fillAtEnd = false; }
-    else if (id == "C09") { c.badParams = true; c.fillAtEnd = false; c.maxFrames = 2; }
-    else if (id == "C10") { c.deviations = true; c.badParams = true; c.ragged = true; c.reload = true; c.fillAtEnd = false; }
+    else if (id == "C09") { c.badParams = true; c.nameVariants = true; c.fillAtEnd = false; c.maxFrames = 2; }
+    else if (id == "C10") { c.deviations = true; c.badParams = true; c.nameVariants = true; c.ragged = true; c.reload = true; c.fillAtEnd = false; }
     else if (id == "C13") { c.deviations = true; c.badParams = true; c.callerReuse = true; c.reload = true; c.print = true; c.ragged = false; }
     else if (id == "C14") { c.print = false; c.raggedSub = true; }
     return c;
@@ -189,7 +192,7 @@ rc::Gen<std::vector<Op>> genScriptOpsFor(const std::string &id, int tier) {
 rc::Gen<Case> genScriptCase(const std::string &id, int tier) {
     if (id == "C11") {
         ScriptCfg c = cfgFor(id, tier); c.fillAtEnd = false; c.maxFrames = tier ? 12 : 6; c.callerReuse = false;
-        auto look = op("look", {uni(0, 13), uni(0, 5), sized(0, 400)});
+        auto look = op("look", {uni(0, 14), uni(0, 5), sized(0, 400)});
         auto scratch = concat({genScriptOps(c), ops(look, tier ? 60 : 30)});
         auto loaded = concat({genFileOpsFor(tier, true), one(op("load", {})), ops(look, tier ? 60 : 30)});     // byte-typed parameters, unlabeled points, events only exist in loaded files
         return asCase(g::oneOf(scratch, scratch, loaded));
